@@ -715,6 +715,24 @@ func (w *world) report(s *session, o outcome) {
 // is reported as a possible leak (inconclusive: only a time bound says so). The
 // child is replaced so the next sessions are judged from a clean baseline.
 func (w *world) restartUnquiesced(s *session) error {
+	// give it one more (long) chance: on an overloaded machine the connection's
+	// goroutines may simply not have been scheduled yet
+	limit := time.Now().Add(40 * time.Second)
+	if s.hugeClass() != "" {
+		limit = time.Now().Add(2 * time.Second)
+	}
+	for time.Now().Before(limit) {
+		st, err := w.ch.stats()
+		if err != nil {
+			break
+		}
+		if st.Goroutines <= w.base.Goroutines && w.ch.fds() <= w.baseFds {
+			w.run.Count("sessions_quiesced_late", 1)
+			w.last, w.haveLast = st, true
+			return nil
+		}
+		time.Sleep(20 * time.Millisecond)
+	}
 	dump := ""
 	if m, err := w.ch.call(map[string]interface{}{"op": "goroutines"}); err == nil {
 		dump, _ = m["dump"].(string)
@@ -1000,7 +1018,7 @@ func TestC14(t *testing.T) {
 	dir := ev.TempDir(t, "c14-")
 	bin := buildChild(t, dir)
 
-	perWorld := run.N(376, 24000)
+	perWorld := run.N(376, 12000)
 	replayWorld, replayIdx := "", -1
 	if rc := run.ReplayCase(); rc != "" {
 		parts := strings.Split(rc, "|")
